@@ -23,6 +23,7 @@ import os
 import random
 import shutil
 
+from vmon.commitmon import DOUBLE_RUN_MECH
 from vmon import gen, harness as H, invariants as I
 from vmon.checks import c10
 
@@ -59,6 +60,7 @@ def gen_cases(tier, seed):
                "n": 12 if tier == "quick" else 40} for i in range(n)]
     cases.append({"id": "c09-seed-confirm-race", "seed": seed, "kind": "seed"})
     cases.append({"id": "c09-seed-takeover-race", "seed": seed, "kind": "takeover"})
+    cases.append({"id": "c09-seed-redefine-running", "seed": seed, "kind": "redefine_running"})
     cases += example_cases("c09", tier, seed)
     nchunks = 8 if tier == "quick" else 64
     for k in range(nchunks):
@@ -298,6 +300,40 @@ def run_case(case):
             counters["evaluations"] += 1
         os.chdir("..")
         shutil.rmtree("s0", ignore_errors=True)
+    elif case["kind"] == "redefine_running":
+        os.makedirs("s2")
+        os.chdir("s2")
+        H.write_file("o.txt", "x\n")
+        # C0 defines a slow step T; the plan fails, which detaches C0 and T while both run; C0 then
+        # defines T again under the same label with another output (or another input), so T is not
+        # recycled as it is but created again while its command runs.
+        tcmd = "do " + json.dumps([{"a": "sleep", "s": 0.25}])
+        variants = [([], ["o2.out"]), (["o.txt"], ["o1.out"]), ([], ["o1.out", "o2.out"]), ([], [])]
+        for rep in range(12):
+            inp2, out2 = variants[rep % len(variants)]
+            c0 = [{"a": "raw", "name": "define_step", "args": [tcmd, [], [], ["o1.out"], [], ".", 32, {}, False, None, None]},
+                  {"a": "signal", "key": "t_defined"}, {"a": "await", "key": "plan_failing"},
+                  {"a": "sleep", "s": 0.03 + 0.01 * (rep % 3)},
+                  {"a": "raw", "name": "define_step", "args": [tcmd, inp2, [], out2, [], ".", 32, {}, False, None, None]},
+                  {"a": "sleep", "s": 0.3}]
+            plan = [{"a": "static", "files": ["o.txt"]},
+                    {"a": "step", "cmd": "do " + json.dumps(c0), "need": "PLAN"},
+                    {"a": "await", "key": "t_defined"}, {"a": "sleep", "s": 0.02},
+                    {"a": "signal", "key": "plan_failing"}, {"a": "fail", "rc": 2}]
+            witness["plan"] = plan
+            H.write_plan("plan.py", plan)
+            shutil.rmtree(".stepup", ignore_errors=True)
+            mon = monitor()
+            b = H.run_build({"njob": 4, "keep_going": True}, ctl=H.Controller("free", rep), monitors=[mon], timeout=60)
+            collect(mon, b, f"{case['id']} repetition {rep}")
+            counters["evaluations"] += 1
+            counters["redefinitions_while_running"] = counters.get("redefinitions_while_running", 0) + \
+                sum(1 for e in b.events if e["type"] == "raw_done" and e.get("ok") and e["name"] == "define_step") - 1
+            for mech, msg, wit in mon.findings:
+                if mech == DOUBLE_RUN_MECH:
+                    vio(mech, f"{case['id']} repetition {rep}: {msg}", json.loads(json.dumps(witness, default=str)))
+        os.chdir("..")
+        shutil.rmtree("s2", ignore_errors=True)
     elif case["kind"] == "takeover":
         os.makedirs("s1")
         os.chdir("s1")
